@@ -215,7 +215,9 @@ class C09:
     """re-insertion only coarsens"""
 
     def before(self, s, op, k):
-        self.prev = [list(c) for c in _clusters(s.tree)]
+        # report order computed here, not taken from the library: leaf order, then stable by size
+        uns = [list(c) for c in _clusters(s.tree, sort=False)]
+        self.prev = sorted(uns, key=len, reverse=True)
 
     def __call__(self, s, op, k, ians):
         if op["op"] not in ("recluster", "refine") or ians != "ok":
@@ -233,4 +235,69 @@ class C09:
             if len({where.get(i, -1) for i in c}) > 1:
                 return {"signature": f"C09:{op['op']}-separated-a-cluster-that-was-not-to-be-split",
                         "what": f"members {c[:10]} were together before {op['op']} and are now in different clusters"}
+        return None
+
+
+# ------------------------------------------------------------------------------- C17
+class C17:
+    """merge configuration: constructor / set_merge symmetry, frame, atomicity, reset"""
+
+    PROBE = None
+
+    def before(self, s, op, k):
+        t = s.tree
+        self.snap = (t.merge_criterion, t.tolerance, float(t.threshold), int(t.branching_factor), repr(t))
+
+    def __call__(self, s, op, k, ians):
+        from bblean.bitbirch import BitBirch
+        from bblean._merges import get_merge_accept_fn
+        t = s.tree
+        now = (t.merge_criterion, t.tolerance, float(t.threshold), int(t.branching_factor), repr(t))
+        kind = op["op"]
+        if kind == "reset":
+            if now != self.snap:
+                return {"signature": "C17:reset-changed-the-merge-configuration", "what": f"{self.snap} -> {now}"}
+            return None
+        if kind in ("fit", "refine", "delint"):
+            if now != self.snap:
+                return {"signature": f"C17:{kind}-changed-the-merge-configuration", "what": f"{self.snap} -> {now}"}
+            return None
+        if kind != "setmerge":
+            return None
+        c, tol, thr, bf = op["crit"], op["tol"], op["thr"], op["bf"]
+        if ians != "ok":
+            if now != self.snap:
+                return {"signature": "C17:failing-set_merge-changed-the-estimator", "what": f"{self.snap} -> {now} after {ians}"}
+        else:
+            if thr is None and now[2] != self.snap[2] or thr is not None and now[2] != float(thr):
+                return {"signature": "C17:set_merge-threshold-frame", "what": f"threshold {self.snap[2]} -> {now[2]} for argument {thr}"}
+            if bf is None and now[3] != self.snap[3] or bf is not None and now[3] != bf:
+                return {"signature": "C17:set_merge-branching-factor-frame", "what": f"bf {self.snap[3]} -> {now[3]} for argument {bf}"}
+            if c is None and now[0] != self.snap[0]:
+                return {"signature": "C17:set_merge-changed-criterion-unasked", "what": f"{self.snap[0]} -> {now[0]}"}
+            if c is not None and now[0] != (c[1] if isinstance(c, (tuple, list)) else c):
+                return {"signature": "C17:set_merge-criterion-not-set", "what": f"asked {c}, got {now[0]}"}
+            if tol is not None and now[1] is not None and not isinstance(c, (tuple, list)) and now[1] != tol:
+                return {"signature": "C17:set_merge-tolerance-not-set", "what": f"asked {tol}, got {now[1]}"}
+            if tol is None and self.snap[1] is not None and now[1] is not None and not isinstance(c, (tuple, list)) \
+                    and now[1] != self.snap[1]:
+                return {"signature": "C17:set_merge-reset-a-previously-chosen-tolerance",
+                        "what": f"tolerance {self.snap[1]} -> {now[1]} although none was passed"}
+        # constructor / set_merge symmetry on the same (criterion, tolerance) arguments
+        if c is not None:
+            try:
+                arg = get_merge_accept_fn(c[1], c[2]) if isinstance(c, (tuple, list)) else c
+                kw = {} if tol is None else {"tolerance": tol}
+                fresh = BitBirch(threshold=now[2], branching_factor=now[3], merge_criterion=arg, **kw)
+                ctor_ok = True
+            except ValueError:
+                ctor_ok = False
+                fresh = None
+            if ctor_ok != (ians == "ok"):
+                return {"signature": "C17:constructor-and-set_merge-disagree-on-acceptance",
+                        "what": f"criterion={c} tolerance={tol}: constructor {'accepts' if ctor_ok else 'rejects'}, set_merge {ians}"}
+            if ctor_ok and (tol is not None or now[1] is None or isinstance(c, (tuple, list))):
+                if (fresh.merge_criterion, fresh.tolerance) != (now[0], now[1]):
+                    return {"signature": "C17:constructor-and-set_merge-yield-different-merge-functions",
+                            "what": f"ctor {(fresh.merge_criterion, fresh.tolerance)} vs set_merge {(now[0], now[1])}"}
         return None
